@@ -861,6 +861,24 @@ func (s *Schema) MakeTester(table string, filter Filter) (Tester, error) {
 	}, nil
 }
 
+// driverValues converts the values of a filter, or of a row extracted with
+// extractRow, to driver values using the valuers of their columns.
+func (t *Table) driverValues(filter Filter) (Filter, error) {
+	values := make(Filter, len(filter))
+	for name, value := range filter {
+		column, ok := t.ColumnsByName[name]
+		if !ok {
+			return nil, fmt.Errorf("unknown column %s", name)
+		}
+		v, err := column.Descriptor.Valuer(reflect.ValueOf(value)).Value()
+		if err != nil {
+			return nil, fmt.Errorf("sqlgen: filter error for `%s`.`%s`: %v", t.Name, column.Name, err)
+		}
+		values[name] = v
+	}
+	return values, nil
+}
+
 func (t *Table) extractRow(row interface{}) Filter {
 	f := make(Filter)
 
